@@ -55,6 +55,7 @@ type Ctx struct {
 	eff      *effAnalysis
 	reg      *registry
 	tmpl     *fontTmpl
+	roles    map[string]string
 }
 
 func (c *Ctx) load() {
